@@ -10,7 +10,15 @@ CLAIM = {
              "totals of opposite sign), C01_no_crash (never panics / loops), C01_reject (not balanced => an error, never accepted), "
              "C01_complete (assertions permitting, all-zero totals or one omitted amount => accepted); lifted to whole ledgers by "
              "C01_history (every transaction of an accepted ledger, after any history, is balanced) and C01_named (a failing run "
-             "reports the index of the offending entry, all earlier entries having been processed). The model is tied to /repo on "
+             "reports the index of the offending entry, all earlier entries having been processed). Text level "
+             "(Lemmas/BookText.lean, the parser model composed with process; okaneAccepts t := t parses and process accepts the "
+             "entries): C01_text / C01_text_accepts (every transaction of an accepted TEXT is Balanced, exactly as C01_history), "
+             "process_err_at / process_err_iff (converse of C01_named: entries before k processed and step k failing with e <=> "
+             "process returns exactly (k, e)), stepEntry_txn_reject (C01_reject through the syntax layer: no balanced resolution "
+             "=> the step is an error value, not accepted, no crash), C01_text_reject (a text whose k-th parsed entry is such a "
+             "transaction, the earlier ones being fine, is rejected with error index k and is not accepted), C01_text_named, "
+             "C01_text_no_crash. These compose the PARSER MODEL (validated against parse_ledger by C05/C06/C14, not proved equal "
+             "to it) with process. The model is tied to /repo on "
              "every run by running the real report::process and the model on the implementation's own parsed tree for generated "
              "ledgers covering the boundary classes (zero-valued residual entries, same-sign pairs, half-unit rounding, zero-quantity "
              "@@, zero / same-commodity rates, lot+cost, 1..6 postings, after histories) and diffing transactions, balances and "
@@ -24,7 +32,12 @@ CLAIM = {
 
 THEOREMS = ["Okane.C01_sound", "Okane.C01_no_crash", "Okane.C01_reject", "Okane.C01_complete",
             "Okane.C01_history", "Okane.C01_named", "Okane.addTransactionSyntax_core",
-            "Okane.balanceAmount_eq_spec", "Okane.BalOK_loop", "Okane.loop_aligned", "Okane.aligned_total", "Okane.loop_omitted"]
+            "Okane.balanceAmount_eq_spec", "Okane.BalOK_loop", "Okane.loop_aligned", "Okane.aligned_total", "Okane.loop_omitted",
+            # text level (Lemmas/BookText.lean; cannot live in Props/C01.lean: C01_history is in Props/Book.lean, which imports Props/C01)
+            "Okane.BookText.C01_text", "Okane.BookText.C01_text_accepts", "Okane.BookText.process_err_at",
+            "Okane.BookText.process_err_iff", "Okane.BookText.stepEntry_txn_reject", "Okane.BookText.C01_text_reject",
+            "Okane.BookText.C01_text_named", "Okane.BookText.C01_text_no_crash", "Okane.BookText.C04_text_raw",
+            "Okane.BookText.okaneAccepts_of_check"]
 
 FLAVORS = ["pair", "same-sign", "zero-entry", "three-commodity", "half-unit", "unbalanced", "zero-rate",
            "same-commodity-rate", "total-cost", "neg-total", "lot-and-cost", "omitted", "multi-omitted", "bare-number"]
@@ -38,7 +51,7 @@ def run(chk):
                 "non-trivial = the implementation accepted or rejected it by a book-keeping rule; distinct = distinct ledger texts")
     chk.assumptions = ["rust_decimal is exact on the generated values (small decimals, rates 2^a*5^b)",
                        "the parser is outside this check: the model and the oracle consume the implementation's parsed tree"]
-    if not standard_prologue(chk, THEOREMS, imports=["Okane.Props.Book"]):
+    if not standard_prologue(chk, THEOREMS, imports=["Okane.Props.Book", "Okane.Lemmas.BookText"]):
         return
     n = 2500 if chk.tier == "quick" else 60000
     from bookstream import exhaustive_txns
